@@ -97,6 +97,25 @@ pub fn gen_case(r: &mut Rng) -> DetCase {
             rows.push(buy("EQL", d + 45, a, 7, 31));
         }
     }
+    // three buyers whose holdings are 28-digit fractions after a 7-for-3 split: the total the
+    // automatic adjustments are divided by (and print) must not depend on the order in which a hash
+    // set hands the buyers out (F-09f: the last digit of a 28-digit sum depends on the order of its terms)
+    if r.chance(60) {
+        let d = last_day + 90;
+        let frac = |sec: &str, day: i32, aff: &str, milli: i64, price: i64| GenRow {
+            shares: Some(rust_decimal::Decimal::new(milli, 3)),
+            ..buy(sec, day, aff, 1, price)
+        };
+        rows.push(buy("NDT", d, "", 100, 50));
+        rows.push(frac("NDT", d, "Aunt", 30521, 50));
+        rows.push(frac("NDT", d, "Kid", 21857, 50));
+        rows.push(frac("NDT", d, "Zoe", 5713, 50));
+        rows.push(GenRow { action: "Split", shares: None, price: None, comm: None, cur: "", rate: None, split: Some("7-for-3"), ..buy("NDT", d + 30, "", 1, 1) });
+        rows.push(GenRow { action: "Sell", ..buy("NDT", d + 60, "", 70, 10) });
+        rows.push(buy("NDT", d + 63, "Aunt", 5, 10));
+        rows.push(buy("NDT", d + 63, "Kid", 6, 10));
+        rows.push(buy("NDT", d + 63, "Zoe", 7, 10));
+    }
     // a ticker that cannot be a file name as it stands (path separator), next to the name its file
     // gets: neither may stop, or share a file with, another security (F-08b)
     if r.chance(30) {
